@@ -7,13 +7,17 @@ template <class C>
 static void run(const eng::Raw& raw, eng::Ctx& ctx)
 {
 	mt::Ops<C> o(ctx, false);
+	o.crowdMode = (!raw.empty() && raw[0][2] % 16 == 0);
 	for (size_t i = 1; i < raw.size() && !o.failed; ++i) o.run_step(raw[i]);
 	ctx.nontrivial(o.sharedApply && o.threeLeaves);
 	for (auto& s : o.ops) ctx.tag("op:" + s);
 	ctx.tag(std::string("leaf-type:") + C::name());
 	ctx.count("steps", o.step);
+	if (o.crowdPeak) ctx.tag(o.crowdPeak > 65536 ? "crowd:more-than-65536-references" : "crowd:up-to-65536-references");
 	eng::LibSection ls(ctx, "mtbdd:destroy-all");
+	if (!raw.empty() && raw[0][1] % 2) o.release_crowd();
 	o.pool.clear();
+	o.release_crowd();
 }
 
 void harness::run_case(const eng::Raw& raw, eng::Ctx& ctx)
